@@ -225,7 +225,7 @@ def rule_M8(chk, lib):
                             for vals in itertools.product(range(0, 13), repeat=len(syms)):
                                 env = {k_: sp.Integer(v_) for k_, v_ in zip(syms, vals)}
                                 sv, bv = sp.sympify(S.xreplace(env)), sp.sympify(B.xreplace(env))
-                                if sv.is_number and bv.is_number and sv < bv:
+                                if sv.is_number and bv.is_number and sv >= 0 and bv >= 1 and sv < bv:
                                     witness = {inv.get(s_, str(s_)): v_ for s_, v_ in env.items()}
                                     break
                         if witness is None:
